@@ -572,6 +572,7 @@ func main() {
 	regs := load(filepath.Join(*repo, "pkg/registers"))
 	methods(regs, "registers")
 	tools := load(filepath.Join(*repo, "pkg/tools"))
+	assigns(tools, "tools", "ParseTXTRegs", "ests", 8)
 	assigns(tools, "tools", "readTXTStatus", "u64", 64)
 	assigns(tools, "tools", "readTXTErrorCode", "u32", 32)
 	assigns(tools, "tools", "readDMAProtectedRange", "u32", 32)
